@@ -268,15 +268,18 @@ class MQTTProtocol(MQTTBaseProtocol):
             msg = self.factory.windowPubRx[self.addr][response.msgId]
         except KeyError as e:
             log.debug("==> {packet:7}(id={response.msgId:04x} dup={response.dup}) already handled" , packet="PUBREL", response=response)
+            msg = None
         else:
             log.debug("==> {packet:7}(id={response.msgId:04x} dup={response.dup})" , packet="PUBREL", response=response)
             del self.factory.windowPubRx[self.addr][response.msgId]
-            self._deliver(msg)
         # every PUBREL, also a repeated one or one for an unknown id, is answered
+        # (before the delivery, as for QoS 1: the application may disconnect from onPublish)
         reply = PUBCOMP()
         reply.msgId = response.msgId
         log.debug("<== {packet:7} (id={response.msgId:04x})" , packet="PUBCOMP", response=response)
         self.transport.write(reply.encode())
+        if msg is not None:
+            self._deliver(msg)
 
 
     # --------------------------------------------------------------------------
